@@ -529,4 +529,6 @@ class Path(ConfigValue[_ExpandedPath]):
             result = result.original
         if isinstance(result, bytes):
             result = result.decode(errors="surrogateescape")
-        return str(result)
+        # Escape backslashes, newlines and tabs like String.serialize() does,
+        # since deserialize() decodes them again.
+        return encode(str(result))
